@@ -135,7 +135,7 @@ func chains(thorough bool) []Chain {
 }
 
 func run(r *ev.Run) {
-	r.Rule("E3 (one process per plugin chain): grammar-generated seeds - v4: message type {DISCOVER, REQUEST, 5 others, none} x hlen {0,1,5,6,8,16,17,255} x PRL {absent, empty, full} x option sets x {giaddr, ciaddr, broadcast}; v6: 16 message types x client-id {absent, LL, LLT, EN, UUID, malformed} x {IA_NA, IA_PD with 9 hint shapes, ORO, rapid commit, server-id own/other} x relay depth 0..4, 32 and the deepest nesting that fits a datagram, plus all byte strings of length 0..2 - through the real HandleMsg4/6 under every single built-in plugin, the example-config chains and full chains in 3 rotations (thorough: every ordered pair), with listener {bound, unbound} x control message {nil, interface}. For the full chains also the complete 1-deviation closure of the seeds (every truncation, every single-bit flip, every byte replaced by 00/01/7f/80/ff, every adjacent option swap); thorough adds every pair of byte substitutions in the option area of 12 seeds per chain. E1: every sequence of length <= 2 (thorough 3) over the state-relevant datagrams on fresh range / prefix instances; plus the state graphs of C02 and C08 (requests, restarts, leases running out after an hour / two days, read-only lease database) explored breadth-first within a time budget for crashes and locks left held. Environment deviation: the seeds are also run with every send failing (ENETUNREACH on the UDP socket, EPERM at the raw socket). Oracle: no panic, at most one reply, no lease-plugin mutex left held, a final well-formed probe is still handled, no datagram takes longer than the watchdog. Class = chain mode/proto/outcome.")
+	r.Rule("E3 (one process per plugin chain): grammar-generated seeds - v4: message type {DISCOVER, REQUEST, 5 others, none} x hlen {0,1,5,6,8,16,17,255} x PRL {absent, empty, full} x option sets x {giaddr, ciaddr, broadcast}; v6: 16 message types x client-id {absent, LL, LLT, EN, UUID, malformed} x {IA_NA, IA_PD with 9 hint shapes, ORO, rapid commit, server-id own/other} x relay depth 0..4, 32 and the deepest nesting that fits a datagram, plus all byte strings of length 0..2 - through the real HandleMsg4/6 under every single built-in plugin, the example-config chains and full chains in 3 rotations (thorough: every ordered pair), with listener {bound, unbound} x control message {nil, interface}. For the full chains also the complete 1-deviation closure of the seeds (every truncation, every single-bit flip, every byte replaced by 00/01/7f/80/ff, every adjacent option swap); thorough adds every pair of byte substitutions in the option area of 12 seeds per chain. E1: every sequence of length <= 2 (thorough 3) over the state-relevant datagrams on fresh range / prefix instances; plus the state graphs of C02 and C08 (requests, restarts, leases running out after an hour / two days, read-only lease database) explored breadth-first within a time budget for crashes and locks left held. Environment deviation: the seeds are also run with every send failing (ENETUNREACH on the UDP socket, EPERM at the raw socket). E2: the DHCPv4 and DHCPv6 Serve loops as two threads of one controlled execution (a few datagrams each), all schedules up to 1 (thorough 2) preemptions: no panic, no deadlock. Oracle: no panic, at most one reply, no lease-plugin mutex left held, a final well-formed probe is still handled, no datagram takes longer than the watchdog. Class = chain mode/proto/outcome.")
 	r.Assume("datagrams further than one deviation from a seed, chains of 3+ plugins other than the listed ones, and the real socket write are not explored; a hang is a datagram exceeding a 20 s watchdog that reproduces when re-run alone")
 	cs := chains(!r.Quick())
 	r.Set("chains", int64(len(cs)))
@@ -172,6 +172,8 @@ func run(r *ev.Run) {
 	// explored with all schedules up to the preemption bound; a deadlock (no thread can run)
 	// or a lock left held is reported here.
 	c16.RunSpecs(r, "C01", func(sp conc.Spec) bool { return sp.Reload })
+	// both Serve loops in one process
+	dualStackServe(r)
 }
 
 func chainName(c Chain) string {
